@@ -308,16 +308,24 @@ func (r *RootApp) Run() error {
 			return err
 		}
 
+		// The parameters that apply to the output file as a whole (template,
+		// schema settings, formatter, force-file-write, file-level
+		// template-data) are taken from the mocks written to this file, so
+		// that they take effect when set on an interface or a `configs` entry
+		// and not only on the package. Like `pkgname` and `template`, they are
+		// taken from the first mock added to the collection.
+		fileConfig := interfacesInFile.interfaces[0].Config
+
 		generator, err := pkg.NewTemplateGenerator(
 			fileCtx,
 			interfacesInFile.srcPkg,
 			interfacesInFile.outFilePath.Parent(),
-			*packageConfig.Config.Template,
-			*packageConfig.Config.TemplateSchema,
-			*packageConfig.Config.RequireTemplateSchemaExists,
+			interfacesInFile.template,
+			*fileConfig.TemplateSchema,
+			*fileConfig.RequireTemplateSchemaExists,
 			remoteTemplateCache,
-			pkg.Formatter(*r.Config.Formatter),
-			packageConfig.Config,
+			pkg.Formatter(*fileConfig.Formatter),
+			fileConfig,
 			interfacesInFile.outPkgName,
 		)
 		if err != nil {
@@ -340,8 +348,8 @@ func (r *RootApp) Run() error {
 			fileLog.Err(err).Msg("can't determine if outfile exists")
 			return fmt.Errorf("determining if outfile exists: %w", err)
 		}
-		if outFileExists && !*packageConfig.Config.ForceFileWrite {
-			fileLog.Error().Bool("force-file-write", *packageConfig.Config.ForceFileWrite).Msg("output file exists, can't write mocks")
+		if outFileExists && !*fileConfig.ForceFileWrite {
+			fileLog.Error().Bool("force-file-write", *fileConfig.ForceFileWrite).Msg("output file exists, can't write mocks")
 			return fmt.Errorf("outfile exists")
 		}
 
